@@ -360,7 +360,7 @@ def cases(tier):
     k = 2 if tier == "quick" else 3
     for name in SCENARIOS:
         plans, totals = cut_plans(name, k if len(SCENARIOS[name][1]) < 6 or tier == "thorough" else k, ns)
-        if tier == "quick" and len(plans) > 12000:
+        if tier == "quick" and len(plans) > 50000:
             plans = [p for p in plans if len(p) <= 1] + [p for p in plans if len(p) == 2][::5]
         if tier == "thorough" and len(plans) > 400000:
             plans = [p for p in plans if len(p) <= 2] + [p for p in plans if len(p) == 3][::7]
@@ -377,7 +377,7 @@ def plans_for(name, k, tier, ns):
     key = (name, k, tier)
     if key not in _PLANS:
         plans, totals = cut_plans(name, k, ns)
-        if tier == "quick" and len(plans) > 12000:
+        if tier == "quick" and len(plans) > 50000:
             plans = [p for p in plans if len(p) <= 1] + [p for p in plans if len(p) == 2][::5]
         if tier == "thorough" and len(plans) > 400000:
             plans = [p for p in plans if len(p) <= 2] + [p for p in plans if len(p) == 3][::7]
@@ -454,11 +454,37 @@ def run_case(case):
             "sample": {"scenario": name, "cut_plans": hi - lo, "executions": n, "distinct_outcomes": len(outcomes)}}
 
 
+def _plan_census(tier):
+    from .. import env
+
+    ns = env.boot()
+    k = 2 if tier == "quick" else 3
+    out = {}
+    for name in SCENARIOS:
+        allp, _ = cut_plans(name, k, ns)
+        run = plans_for(name, k, tier, ns)
+        full = {}
+        for p in allp:
+            full[len(p)] = full.get(len(p), 0) + 1
+        ran = {}
+        for p in run:
+            ran[len(p)] = ran.get(len(p), 0) + 1
+        complete = max([n for n in sorted(full) if all(ran.get(m, 0) == full[m] for m in full if m <= n)] or [-1])
+        out[name] = {"placements_by_cut_count": {str(n): full[n] for n in sorted(full)}, "run_by_cut_count": {str(n): ran.get(n, 0) for n in sorted(full)},
+                     "cut_count_fully_covered": complete}
+    return out
+
+
 def coverage(tier, agg):
+    census = _plan_census(tier)
     return {
+        "cut_plan_census": census,
+        "bound_completed": "every placement of <= %d cut points in every scenario; placements of the next size are enumerated completely where "
+                           "cut_plan_census shows run == placements and as a fixed stride of the enumeration otherwise" % min(c["cut_count_fully_covered"] for c in census.values()),
+        "exhaustive": all(c["placements_by_cut_count"] == c["run_by_cut_count"] for c in census.values()),
         "rule": "scenarios %s; for each, every placement of <= %d cut points over all pipes (worker->server and server->worker byte streams; a cut is "
-                "a delivery boundary, all remaining bytes are coalesced) x 2 pipe service orders (large plan sets are thinned as stated in "
-                "DESIGN.md); oracle per surviving worker: ids looked up = multiset of ids announced by the other workers, each intact and once, none "
+                "a delivery boundary, all remaining bytes are coalesced) x 2 pipe service orders (cut_plan_census gives, per scenario and cut count, how many "
+                "placements exist and how many were run); oracle per surviving worker: ids looked up = multiset of ids announced by the other workers, each intact and once, none "
                 "of its own; every looked-up event is fanned out locally once; client loops stay alive; states/transitions = executions." % (
                     sorted(SCENARIOS), 2 if tier == "quick" else 3),
     }
